@@ -114,6 +114,9 @@ class SSeq:
     def at(self, i):
         return SV(self.sort, self.arr[i])
 
+    def clone(self):
+        return self  # immutable: may stand in a heap cell (a list that was filled from a symbolic sequence)
+
 
 # ---------------------------------------------------------------------------
 # strings
@@ -712,6 +715,18 @@ def compare(ex, st, op, a, b):
             r = (a.t == b.t) if a.kind == b.kind else False
         elif isinstance(a, (ClassRef, TypeRef)) or isinstance(b, (ClassRef, TypeRef)):
             r = a == b
+        elif (isinstance(a, SV) and isinstance(b, SV) and a.sort == b.sort and isinstance(a.sort, tuple) and a.sort[0] == "opt"
+              and isinstance(a.sort[1], tuple) and a.sort[1][0] == "u"):
+            r = a.t == b.t  # two optional abstract objects: the same object (or both None) iff the terms are equal
+        elif (isinstance(a, SV) and isinstance(b, Opaque) or isinstance(b, SV) and isinstance(a, Opaque)):
+            o, sv = (b, a) if isinstance(b, Opaque) else (a, b)
+            if isinstance(sv.sort, tuple) and sv.sort[0] == "opt" and sv.sort[1] == ("u", o.kind):
+                S = z3sort(sv.sort)
+                r = z3.And(z3.Not(S.is_none(sv.t)), S.val(sv.t) == o.t)
+            elif sv.sort == ("u", o.kind):
+                r = sv.t == o.t
+            else:
+                r = False
         else:
             raise U(f"'is' on {a!r}, {b!r}")
         if op is ast.IsNot:
@@ -1417,6 +1432,33 @@ def sdict_store(d: SDict, k, v):
     d.val = z3.Store(d.val, kt, vt)
 
 
+def sdict_update(ex, st, d: SDict, src: SDict):
+    """d.update(src) for two symbolic dicts: fresh arrays characterised by axioms.  Keys of d keep their positions and
+    get src's value where src has the key; the keys only src has are appended in src's order."""
+    K = z3sort(d.ksort)
+    nm = fresh_name("upd")
+    n2 = z3.Int(nm + ".n")
+    key_at2 = z3.Array(nm + ".key_at", z3.IntSort(), K)
+    pos2 = z3.Array(nm + ".pos", K, z3.IntSort())
+    has2 = z3.Array(nm + ".has", K, z3.BoolSort())
+    val2 = z3.Array(nm + ".val", K, z3sort(d.vsort))
+    j = z3.Int(fresh_name("j"))
+    k = z3.Const(fresh_name("k"), K)
+    k2 = z3.Const(fresh_name("k"), K)
+    n, key_at, pos, has, val = d.terms()
+    new = lambda x: z3.And(src.has[x], z3.Not(has[x]))  # noqa: E731
+    st.assume(z3.And(n2 >= n, n2 <= n + src.n))
+    st.assume(z3.ForAll([k], has2[k] == z3.Or(has[k], src.has[k]), patterns=[has2[k]]))
+    st.assume(z3.ForAll([k], val2[k] == z3.If(src.has[k], src.val[k], val[k]), patterns=[val2[k]]))
+    st.assume(z3.ForAll([j], z3.Implies(z3.And(0 <= j, j < n), key_at2[j] == key_at[j]), patterns=[key_at2[j]]))
+    st.assume(z3.ForAll([j], z3.Implies(z3.And(n <= j, j < n2), z3.And(new(key_at2[j]), pos2[key_at2[j]] == j)), patterns=[key_at2[j]]))
+    st.assume(z3.ForAll([k], z3.Implies(has[k], pos2[k] == pos[k]), patterns=[pos2[k]]))
+    st.assume(z3.ForAll([k], z3.Implies(new(k), z3.And(n <= pos2[k], pos2[k] < n2, key_at2[pos2[k]] == k)), patterns=[pos2[k]]))
+    st.assume(z3.ForAll([k, k2], z3.Implies(z3.And(new(k), new(k2)), (pos2[k] < pos2[k2]) == (src.pos[k] < src.pos[k2])),
+                        patterns=[z3.MultiPattern(pos2[k], pos2[k2])]))
+    d.set_terms((n2, key_at2, pos2, has2, val2))
+
+
 def sdict_remove(ex, st, d: SDict, kt):
     """Remove a present key; later keys shift down by one (fresh arrays + axioms)."""
     K = z3sort(d.ksort)
@@ -1541,6 +1583,10 @@ def list_extend(ex, st, ref, other):
         lst.items.extend(other.items)
     elif isinstance(other, tuple):
         lst.items.extend(other)
+    elif isinstance(other, SSeq) and isinstance(lst, PList) and not lst.items:
+        # an empty list extended by a symbolic sequence holds exactly that sequence (a later mutation of it is
+        # outside the subset and reported as unsupported)
+        st.heap[ref.addr] = other
     else:
         raise _U()("extend with symbolic iterable")
 
